@@ -432,6 +432,54 @@ func c17(r *Report) {
 	})
 
 	r.Guard("C17.R5", "only the recording and resetting functions change the log; exporting alone changes nothing", func() {
+		// what an export returns is a function of the ring and the map alone: no branch of
+		// Export / ExportAndReset looks at other logger state (a counter or a generation
+		// number kept beside the list can disagree with it)
+		for _, fn := range []string{"Logger.Export", "Logger.ExportAndReset"} {
+			f := r.W.Fn("har", fn)
+			if f == nil || len(f.Params) == 0 {
+				continue
+			}
+			bad := ""
+			var pos token.Pos
+			for _, in := range instrs(f) {
+				iff, ok := in.(*ssa.If)
+				if !ok {
+					continue
+				}
+				for v := range w.backSlice(iff.Cond, flowOpt{BinOps: true}) {
+					if fa, isFa := v.(*ssa.FieldAddr); isFa && fa.X == ssa.Value(f.Params[0]) {
+						if fo := fieldObj(fa); fo != fEntries && fo != fTail && fo.Name() != "mu" && opWritten(w, fo) {
+							bad = fo.Name()
+							pos = iff.Cond.Pos()
+						}
+					}
+				}
+			}
+			r.Decide("flow", fnName(f)+": decisions depend on the entry map and the ring only", bad == "", "no condition reads another field that the logger's own methods update (fields fixed by options at construction are configuration, not state)", "a branch depends on Logger."+bad+", state kept beside the list: when it disagrees with the list (a repeated response, an update it does not count) pending entries are exported and dropped, or completed ones withheld", pos)
+		}
+		// the export endpoint serves the log as it is now: Export() is called for every
+		// GET, under no condition but the request method
+		if eh := r.W.Fn("har", "exportHandler.ServeHTTP"); eh != nil {
+			r.Touch(eh)
+			exps := calls(eh, "(*M/har.Logger).Export")
+			if len(exps) == 0 {
+				r.Fail("path", "(*M/har.exportHandler).ServeHTTP: exports the current log", "the handler no longer calls Logger.Export", nil, eh.Pos())
+			}
+			for _, c := range exps {
+				bad := ""
+				for _, ce := range ctrlEdges(c.Block()) {
+					if !anyIn(w.backSlice(ce.If.Cond, flowOpt{BinOps: true}), func(x ssa.Value) bool {
+						fa, y := x.(*ssa.FieldAddr)
+						return y && fieldObj(fa).Name() == "Method"
+					}) {
+						bad = w.Pos(ce.If.Cond.Pos())
+					}
+				}
+				r.Decide("path", "(*M/har.exportHandler).ServeHTTP: exports the current log", bad == "", "Export() depends on the request method only", "the export is skipped under the condition at "+bad+" (a cached answer is served instead): a response recorded since the cached export is missing from what the client gets", c.Pos())
+			}
+		}
+
 		// the list an export hands out belongs to the caller: it is made in that call
 		// and shares no storage with the logger (a reused backing array is rewritten
 		// by the next export while the caller still reads the previous answer)
@@ -557,4 +605,21 @@ func c17(r *Report) {
 		}
 		r.Decide("flow", "(*M/har.Logger).Export: entries are listed starting from the tail's successor", okA, "appends curr.next", "the export does not start at the oldest entry", ex.Pos())
 	})
+}
+
+// opWritten: some method of the field's owner stores to the field (outside a
+// freshly allocated value). Fields written only by option closures or the
+// constructor are configuration: they cannot drift from the list.
+func opWritten(w *World, fo *types.Var) bool {
+	for _, st := range w.fieldStores(fo) {
+		f := st.Parent()
+		if f == nil || f.Signature.Recv() == nil {
+			continue
+		}
+		if fa, ok := st.Addr.(*ssa.FieldAddr); ok && freshBase(fa) {
+			continue
+		}
+		return true
+	}
+	return false
 }
